@@ -356,13 +356,7 @@ func (rn *runner) runHistory(initial *rnode, steps []hstep) (input string, obs s
 			var fresh []*rnode
 			collectV(st.v, defined, &fresh)
 			for _, n := range fresh {
-				var b strings.Builder
-				fmt.Fprintf(&b, "(def %s%d (%s", prefix, n.id, n.tn)
-				for i, k := range n.keys {
-					b.WriteString(" " + k + ":" + e.v(n.vals[i]))
-				}
-				b.WriteString("))")
-				e.lines = append(e.lines, b.String())
+				e.defLines(n)
 			}
 			e.lines = append(e.lines, fmt.Sprintf("(hset %s %%%s %s)", name, st.key, e.v(st.v)))
 			for i, a := range e.atoms {
